@@ -19,7 +19,7 @@ RULE = ('topology cases as in C06 (probe process at depth 0-2 with 1-4 ports of 
         'different); Composite.initial_state()/default_state() with per-process initial values; non-trivial = '
         '>=2 ports, >=1 absent and >=1 given leaf among the declared nodes; distinct = distinct case spec')
 PLAN = {'quick': {'n': 9000, 'min_cases': 500}, 'thorough': {'n': 100000, 'min_cases': 10000}}
-REQUIRED_ORACLES = ['declared_exists', 'given_value', 'default_value', 'entry_points_agree', 'glob_children',
+REQUIRED_ORACLES = ['composite_reusable', 'declared_exists', 'given_value', 'default_value', 'entry_points_agree', 'glob_children',
                     'conflict_raises', 'compatible_accepted', 'initial_state_placement', 'default_state_placement']
 ANCHORS = ['vivarium.core.store:generate_state', 'vivarium.core.store:Store.generate',
            'vivarium.core.store:Store._apply_config', 'vivarium.core.store:Store.set_value',
@@ -135,6 +135,15 @@ def run(spec):
                 c = Composite({'processes': procs, 'topology': tops})
                 e = Engine(store=c.generate_store({'initial_state': copy.deepcopy(given_tree)}),
                            display_info=False, emitter='null')
+                # the Composite can be used again: a second store built from it without an initial
+                # state holds the declared defaults, not the values given to the first build
+                V.check('composite_reusable', not c['state'],
+                        lambda: ('building a store with an explicit initial state changed Composite.state', repr(c['state'])[:200]))
+                again = {p: v for p, v in flat(plain_values(c.generate_store({}).get_value())).items()}
+                stale = {'/'.join(ap): (again.get(ap), given[ap]) for ap, defaults in cand.items()
+                         if ap in given and ap in again and not any(_same(again[ap], d) for d in defaults)}
+                V.check('composite_reusable', not stale,
+                        lambda: ('second store built from the same Composite without initial state shows the first build\'s values (got, first build\'s value)', stale))
         except Exception as ex:
             import traceback
             V.check('declared_exists', False, ('construction through %s raised' % mode, type(ex).__name__, str(ex)[:200],
